@@ -161,4 +161,23 @@ theorem style_string_means_the_same_in_every_option (s : Generated.StyleSites.Si
 example : ∃ s ∈ Generated.StyleSites.styleCallSites, s.name = "grep-line-number-style" ∧ s.kind = "option" ∧
     s.name ∉ StyleSites.depthExceptions := by decide
 
+/-- **The style string the user gave is the one that is parsed**: the generated inventory of the
+assignments `set_options` makes to style-typed fields after the command line was read consists of
+exactly six rewrites; a non-decoration style is rewritten only when it did *not* come from the
+command line (guard on that same option) and before git-config values are loaded (so those are not
+rewritten either); the side-by-side `normal …` → `syntax …` HACK applies to `minus-style` /
+`minus-emph-style` defaults only, each under its own guard; the sole rewrite of command-line values
+is `--color-only` forcing the three decoration styles to `none`. -/
+theorem only_defaults_are_rewritten :
+    Generated.StyleRewrites.styleRewrites.map (·.field) = StyleRewrites.rewrittenFields ∧
+    Generated.StyleRewrites.userSuppliedMeansCommandLine = true ∧
+    (∀ r ∈ Generated.StyleRewrites.styleRewrites, r.field ∉ StyleRewrites.colorOnlyFields →
+      StyleRewrites.ownGuard r.field ∈ r.guards ∧ r.beforeGitConfig = true) ∧
+    (∀ r ∈ Generated.StyleRewrites.styleRewrites, r.field ∈ StyleRewrites.colorOnlyFields →
+      r.guards = ["opt.color_only"] ∧ r.value = "\"none\".to_string()") ∧
+    (∀ r ∈ Generated.StyleRewrites.styleRewrites, ("format!(\"syntax {}\"".toList.isPrefixOf r.value.toList) = true →
+      (r.field = "minus_style" ∨ r.field = "minus_emph_style") ∧
+      "features.contains(&\"side-by-side\".to_string())" ∈ r.guards ∧ StyleRewrites.ownGuard r.field ∈ r.guards) :=
+  StyleRewrites.rewrites_are_exactly
+
 end C12
